@@ -1367,6 +1367,37 @@ fn gvar_total_after(cur: Option<&Vec<u8>>, applied: &[(&Info, &GkPatch)]) -> Opt
     Some((0..g.glyphs.len()).map(|i| repl.get(&(i as u32)).map(|d| d.len()).unwrap_or(g.glyphs[i].len())).sum())
 }
 
+
+/// correspondence for the modelled `Gvar::TAG` arm (`gvarPatch` in Model/GvarKeyed.lean): the new
+/// gvar table of a successful application, or the error when only gvar can have produced it
+fn gvar_case(s: &mut Session, base: &Tables, r: &Result<Result<Vec<u8>, PatchingError>, String>, pairs: &[(&Info, &GkPatch)]) {
+    if !pairs.iter().any(|(_, p)| p.spec.tables.contains(&GVAR)) { return; }
+    if pairs.iter().any(|(_, p)| !p.clean || p.bytes.len() < 29) { return; }
+    let Some(maxp) = get(base, tg(b"maxp")) else { return };
+    if maxp.len() < 6 { return; }
+    let n = u16::from_be_bytes([maxp[4], maxp[5]]) as usize;
+    if n == 0 { return; }
+    let gv = get(base, GVAR);
+    if let Some(g) = gv {
+        // model assumption: the data array offset lies inside the table
+        if g.len() >= 20 && u32::from_be_bytes([g[16], g[17], g[18], g[19]]) as usize > g.len() { return; }
+    }
+    let mut req = format!("gvar {} {} {}", n - 1, gv.map(|g| hex(g)).unwrap_or("none".into()), pairs.len());
+    for (_, p) in pairs {
+        req.push_str(&format!(" {} {}", if p.spec.wide { 1 } else { 0 }, hex(&p.bytes[29..])));
+    }
+    let only_gvar = pairs.iter().all(|(_, p)| p.spec.tables.iter().all(|t| ![GLYF, CFF_, CFF2].contains(t)));
+    let resp = match r {
+        Ok(Ok(bytes)) => match tables_of(bytes).and_then(|t| get(&t, GVAR).cloned()) {
+            Some(o) => format!("ok {}", digest(&o)),
+            None => "ok missing".into(),
+        },
+        Ok(Err(e)) if only_gvar => format!("err {}", perr(e)),
+        _ => return,
+    };
+    s.case("gvar_patch", req, resp);
+}
+
 /// apply the groups one after the other; Err(None): a step would leave gvar without any glyph data
 /// (known finding, reported under its own oracle), Err(Some(msg)): a step failed
 fn apply_seq(s: &mut Session, font: &[u8], groups: &[&[(&Info, &GkPatch)]], input: &dyn Fn() -> String) -> Result<Tables, Option<String>> {
@@ -1376,6 +1407,7 @@ fn apply_seq(s: &mut Session, font: &[u8], groups: &[&[(&Info, &GkPatch)]], inpu
         let empties = gvar_total_after(get(&cur_tables, GVAR), grp) == Some(0);
         let dec = Scripted::new(None);
         let r = apply_gk(&cur, grp, &dec);
+        gvar_case(s, &cur_tables, &r, grp);
         if empties {
             s.count("group:gvar-all-empty-step");
             let detail = match &r { Ok(Ok(_)) => "ok".to_string(), Ok(Err(e)) => format!("err {}", perr(e)), Err(p) => format!("panic {p}") };
@@ -1990,6 +2022,7 @@ fn run_hostile(s: &mut Session, rng: &mut Rng, n_cases: usize) {
         let pairs = vec![(&infos[0], &patch)];
         let dec = Scripted::new(None);
         let r = apply_gk(&font, &pairs, &dec);
+        if target == 0 { gvar_case(s, &base, &r, &pairs); }
         let input = || format!("hostile#{case_no} target {target}: gk n 1 {} {} | {}", infos[0].req(), hex(&patch.bytes).chars().take(600).collect::<String>(), font_req(&base).chars().take(1800).collect::<String>());
         match &r {
             Err(p) => s.oracle("hostile:no-panic", false, input, || p.clone()),
